@@ -528,8 +528,15 @@ class Gen:
             else:
                 self.emit_zoo(self.pick(zoo.USES).replace("use m", "use " + mod), depth,
                               kind="use")
-        if not uses and self.features.get("zoo", 0.2) and self.chance(0.12):
-            self.emit_zoo(self.pick(zoo.USES), depth, kind="use")
+            if self.chance(0.3):
+                for text in self.pick(zoo.USE_GROUPS):
+                    self.emit_zoo(text.replace("use m", "use " + mod), depth, kind="use")
+        if not uses and self.features.get("zoo", 0.2) and self.chance(0.15):
+            if self.chance(0.5):
+                self.emit_zoo(self.pick(zoo.USES), depth, kind="use")
+            else:
+                for text in self.pick(zoo.USE_GROUPS):
+                    self.emit_zoo(text, depth, kind="use")
         if self.chance(0.8):
             self.emit(["implicit", "none"], "implicit", depth)
         if self.chance(0.3):
